@@ -75,7 +75,7 @@ where
 
             File::create(s)
                 .expect(&format!("Failed to create file: {}", s.display()))
-                .write(&buf)
+                .write_all(&buf)
                 .map_err(|e| vec![Error::IOError(Rc::new(e))])?;
         }
     };
